@@ -80,7 +80,7 @@ Theorem run_case_obfuscated c k files idx o : k <> [] ->
   run_case c {| d_files := map (obfuscate_file k) files; d_index := idx; d_xor := Some k |} o
   = run_case c {| d_files := files; d_index := idx; d_xor := None |} o.
 Proof.
-  intro Hk. unfold run_case. cbn [d_files d_index]. destruct files as [|f0 fr]; [reflexivity|]. cbn [map].
+  intro Hk. unfold run_case. destruct (negb (range_ok (o_range o))); [reflexivity|]. cbn [d_files d_index]. destruct files as [|f0 fr]; [reflexivity|]. cbn [map].
   destruct (new_index idx (o_range o)) as [ci| | |]; try reflexivity.
   erewrite Drive.drive_ext; [reflexivity|]. intros h _. apply (get_block_obfuscated c k (f0 :: fr) idx (o_verify o) ci h Hk).
 Qed.
